@@ -134,7 +134,7 @@ func c19Reset(f []string) string {
 	cfg.Agent.DataDir = dir
 	cfg.Agent.LogLevel = "error"
 	cfg.Exit.Enabled = f[1] == "1"
-	cfg.Exit.DNS.Timeout = 300 * time.Millisecond
+	cfg.Exit.DNS.Timeout = 150 * time.Millisecond
 	cfg.Exit.DNS.Servers = []string{"127.0.0.1:9"} // nothing answers: unknown names fail fast
 	if f[2] != "-" {
 		for _, n := range strings.Split(f[2], ",") {
@@ -200,7 +200,7 @@ func c19Open(tok string) string {
 	}
 	c19W.stream++
 	sid := c19W.stream
-	ctx, cancel := context.WithTimeout(context.Background(), 800*time.Millisecond)
+	ctx, cancel := context.WithTimeout(context.Background(), 250*time.Millisecond)
 	defer cancel()
 	var remote identity.AgentID
 	remote[0] = 9
@@ -290,7 +290,7 @@ func c19Gen(w *bufio.Writer, seed int64, tier string) {
 	r := newRng(seed)
 	cases := 60
 	if tier == "thorough" {
-		cases = 1500
+		cases = 700
 	}
 	hx := func(s string) string { return hexTok([]byte(s)) }
 	v6 := func(b ...byte) string { x := make([]byte, 16); copy(x, b); return hexTok(x) }
@@ -310,7 +310,7 @@ func c19Gen(w *bufio.Writer, seed int64, tier string) {
 	ips := []string{"7f000001", "7f010203", "7f010204", "7f0102fe", "7f01ff01", "7f020304", "7f030405", "7f800001", "7fffffff",
 		mapped(127, 1, 2, 3), mapped(127, 9, 9, 9), mapped(127, 2, 0, 1), v6(0, 0, 0, 0, 0, 0, 0, 0, 0, 0, 0, 0, 0, 0, 0, 1),
 		"0a010203", "c0a80105", "08080808"}
-	patsPool := []string{"example.com", "*.example.com", "*.Corp.Local", "API.test.local", " *.spaced.org ", "*.", "*", "a.b"}
+	patsPool := []string{"*.invalid", "example.com", "*.example.com", "*.Corp.Local", "API.test.local", " *.spaced.org ", "*.", "*", "a.b"}
 	names := []string{"example.com", "EXAMPLE.com", "www.example.com", "a.b.example.com", ".example.com", "example.com.", "xexample.com",
 		"x.corp.local", "api.test.local", "api.test.local.", "y.spaced.org", "a.b", "foo.", "localhost", "other.org", "*.example.com"}
 	pick := func(xs []string) string { return xs[r.intn(len(xs))] }
@@ -362,7 +362,12 @@ func c19Gen(w *bufio.Writer, seed int64, tier string) {
 					if res == "-" && !r.chance(30) {
 						res = pick(ips) // keep slow failing lookups rare
 					}
-					fmt.Fprintf(w, "open n:%s:%s\n", hx(pick(names)), res)
+					name := pick(names)
+					if res == "-" {
+						// no injected answer: the real lookup must fail, so use a name that cannot resolve
+						name = r.pickS("nonexistent.invalid", "www.example.invalid", "x.corp.invalid")
+					}
+					fmt.Fprintf(w, "open n:%s:%s\n", hx(name), res)
 				} else {
 					fmt.Fprintf(w, "open i:%s\n", pick(ips))
 				}
